@@ -44,6 +44,11 @@ def bounds(tier):
             "unwind": 12}
 
 
+def has_container(names):
+    """shapes whose elements live on the heap: T4 (word-typed heap) keeps their discriminants constant"""
+    return any(n in ("tuple1i", "list1", "imp1", "tuple2", "list2") for n in names)
+
+
 def cuts_for(names):
     """T2 cut list derived mechanically from the shapes' variant set."""
     txt = " ".join(shapes.LEAVES[n][0] for n in names)
@@ -85,7 +90,7 @@ def generate(tier, seed):
         src.append(fn(n, body))
         hs.append(Harness(n, "antisymmetry, reflexivity, a==b => cmp Equal, a==b => equal hash transcript, and BorrowedTerm "
                              "orders/equates the pair exactly as OwnedTerm, on shapes %s x %s" % (a, b),
-                          unwind=UNW, unwindset=UWS, recursion=rec_for([a, b]), cap_s=CAP, cuts=cuts_for([a, b])))
+                          unwind=UNW, unwindset=UWS, recursion=rec_for([a, b]), cap_s=CAP, cuts=cuts_for([a, b]), typed_heap=has_container([a, b])))
     for a, bs in cross_groups().items():
         n = "c11_cross__%s" % a
         body = "    let (a, _ra) = %s;\n" % L[a][0]
@@ -95,7 +100,7 @@ def generate(tier, seed):
         body += "    vk::leak(a);"
         src.append(fn(n, body))
         hs.append(Harness(n, "pair laws + owned/borrowed agreement for %s against one representative of every other type rank: %s" % (a, bs),
-                          unwind=UNW, unwindset=UWS, recursion=rec_for([a] + bs), cap_s=CAP, cuts=cuts_for([a] + bs)))
+                          unwind=UNW, unwindset=UWS, recursion=rec_for([a] + bs), cap_s=CAP, cuts=cuts_for([a] + bs), typed_heap=has_container([a] + bs)))
     fam_tr = [["int", "float", "big8"], ["nil", "list0", "imp1"], ["bin1", "bit1", "str1"]]
     if tier == "thorough":
         fam_tr = [["int", "float", "big1", "big8", "big9"], ["nil", "list0", "list1", "imp1"],
@@ -111,5 +116,5 @@ def generate(tier, seed):
                     src.append(fn(n, body))
                     hs.append(Harness(n, "transitivity of <= and of Equal on shapes %s, %s, %s" % (a, b, c),
                                       unwind=UNW, unwindset=UWS, recursion=rec_for([a, b, c]), cap_s=CAP,
-                                      cuts=cuts_for([a, b, c])))
+                                      cuts=cuts_for([a, b, c]), typed_heap=has_container([a, b, c])))
     return "\n".join(src), hs
